@@ -174,6 +174,15 @@ def universe(tier):
         yield ('recursive', call('T', [arg], None), rules, None)
         rules = [('T', ('rule', ['p'], ('seq', P, ('opt', ('call', 'T', [('seq', P, C)], [])))))] + BASE + ID
         yield ('recursive-growing', call('T', [arg], None), rules, None)
+    # higher-order templates: a template passed as an argument and called through the parameter
+    WRAP = [('Wrap', ('rule', ['p'], ('seq', ('str', 'c'), P))), ('Dup', ('rule', ['p'], ('seq', P, P)))]
+    for f in ('Wrap', 'Dup'):
+        for arg in (A, ('re', '[ab]'), ('ref', 'X')):
+            for kw in (None, ('f', 'x')):
+                rules = [('Twice', ('rule', ['f', 'x'], ('call', 'f', [('call', 'f', [('ref', 'x')], [])], []))),
+                         ('Once', ('rule', ['f', 'x'], ('call', 'f', [], [('p', ('ref', 'x'))])))] + WRAP + BASE + ID
+                yield ('higher-order/%s' % ('kw' if kw else 'pos'), call('Twice', [('ref', f), arg], kw), rules, None)
+                yield ('higher-order/%s' % ('kw' if kw else 'pos'), call('Once', [('ref', f), arg], kw), rules, None)
     # class templates
     for a1, a2 in ((A, ('re', '[bc]')), (('seq', A, B), ('ref', 'X')), (('ref', 'K'), C)):
         cls = ('class', ['p', 'q'], [('x', False, P), ('y', False, ('star', Q))])
